@@ -60,6 +60,7 @@ class Interp:
         self.pure = 0
         self.recv = None
         self.bounded_loops = []
+        self.comp_ctx = []
 
     # ---------------------------------------------------------------- conveniences
     def branch(self, cond, label='if'):
@@ -1144,10 +1145,13 @@ class Interp:
         try:
             self.assign(g.target, it.at(i))
             guard = z3.And([z3.And(it.lo <= i, i < it.hi)] + [truthy(self, self.eval(c)) for c in g.ifs])
+            self.comp_ctx.append((i, guard, it))
             elt = self.eval(n.elt)
         finally:
             self.pure -= 1
             self.frame = saved
+            if self.comp_ctx and self.comp_ctx[-1][0] is i:
+                self.comp_ctx.pop()
         return i, guard, elt, bool(g.ifs)
 
     def e_GeneratorExp(self, n):
@@ -1264,7 +1268,7 @@ class Interp:
         c = self.spec.calls.get(short)
         if c is not None:
             return c(self, None, args, kwargs)
-        if short in ('str', 'bytes', 'int', 'float', 'bool', 'list', 'tuple', 'set', 'dict', 'bytearray', 'frozenset'):
+        if short in ('str', 'bytes', 'int', 'float', 'bool', 'list', 'tuple', 'set', 'dict', 'bytearray', 'frozenset', 'type'):
             return BUILTINS[short](self, args, kwargs)
         if self.is_exception_class(short):
             return VExc(short, args, kwargs)
